@@ -217,7 +217,7 @@ def run_case(case, ctx):
 
 
 def budget(tier):
-	return {'quick': 20000, 'thorough': 1000000}[tier]
+	return {'quick': 60000, 'thorough': 1000000}[tier]
 
 
 NEAR = sorted({c ^ (1 << b) for c in b'ACGTacgt' for b in range(8)} - set(b'ACGTacgt')) + [0, 255, ord('N'), ord('U'), ord('n'), ord('-')]
